@@ -22,6 +22,8 @@
 (*                                                     (Mode = "steps")     *)
 (*   propagate(t0,t1) / propagateBulk(times) called with arbitrary splits,  *)
 (*        batches of K columns, output grids                (Mode = "calls")*)
+(*   a caller that stops handing over scheduled_events (None / []) to the   *)
+(*        same dynamics object from some call on            (DropEvents)    *)
 (* What is NOT modelled here: the delivery windows of the scenario (C01,    *)
 (* Windows/Impulse model, DESIGN appendix B) - Deliver uses the as-coded    *)
 (* window on exact times; impulses.                                         *)
@@ -49,6 +51,11 @@
 (* the call; EndMasksStart = TRUE (D10b): the exact-equality zero at the    *)
 (* end hides the start root of a burn inside the last integrator step.      *)
 (* TLC refutes ThrustExactlyInterval / DeliveredDv / Semigroup for both.    *)
+(* StaleThrust = TRUE: _prepEvents resets finite_thrust only when events    *)
+(* are passed, so a call WITHOUT events (DropEvents) on the same dynamics    *)
+(* object inherits the thrust the previous call left on; TLC refutes         *)
+(* ExactAtBoundaries / StepwiseEqualsRun (the result would depend on the     *)
+(* history of the object, not only on epoch and state).                      *)
 (***************************************************************************)
 EXTENDS Integers, Sequences, FiniteSets, TLC, Json
 
@@ -68,6 +75,8 @@ CONSTANTS
   OnlyFirstStart,   \* TRUE: pose only burns that start at FirstStart
   EndNeedsLanding,  \* deviation D10 (as coded): the end of the burn is no root, only a landing
   EndMasksStart,    \* deviation D10b (as coded): the exact-equality zero at the end hides the start
+  CallerMayDrop,    \* "calls": the caller may stop passing the event queue from some call on
+  StaleThrust,      \* deviation (seeded/C03/change4): finite_thrust is only reset when events are passed
   EmitTag           \* "" = do not print behaviours
 
 \* named constant sets for the cfg files (cfg files cannot hold tuples / negatives)
@@ -90,13 +99,15 @@ VARIABLES
   it, fresh,  \* integration time of the restart loop; TRUE until the first restart
   rem, outs,  \* remaining t_eval times / collected outputs of the running call
   hist,    \* completed calls (for the harness)
-  on       \* ticks tau such that the thrust was on during [tau, tau+1)
+  on,      \* ticks tau such that the thrust was on during [tau, tau+1)
+  dropAt   \* time from which the caller passes no events any more (NeverDrop = it always does)
 
-vars == <<pc, law, burn, dt, nsteps, hor, X0, now, X, queue, thrust, call, it, fresh, rem, outs, hist, on>>
+vars == <<pc, law, burn, dt, nsteps, hor, X0, now, X, queue, thrust, call, it, fresh, rem, outs, hist, on, dropAt>>
 
 NoBurn  == [ts |-> 0, te |-> 0, kind |-> "none"]
 NoCall  == [kind |-> "none", times |-> <<>>, X0 |-> <<>>, q |-> 0]
 HasBurn == burn.kind # "none"
+NeverDrop == Horizon + 2
 G == law[2]
 A == law[3]
 Min(a, b) == IF a < b THEN a ELSE b
@@ -110,10 +121,13 @@ AdvX(cols, acc, d) == [k \in DOMAIN cols |-> Adv(cols[k], acc, d)]
 Batch(K, v0) == [k \in 1..K |-> <<2 * (k - 1), v0 + (k - 1)>>]
 
 \* closed form, independent of the driver: overlap of [0, t] with [ts, te)
-Ov(t) == IF HasBurn THEN Max(0, Min(t, burn.te) - burn.ts) ELSE 0
+\* (a burn whose event the caller stops passing at dropAt ends there: the thrust is a property of
+\* the events of the CURRENT call, never of what an earlier call left behind)
+EffEnd == IF burn.te < dropAt THEN burn.te ELSE dropAt
+Ov(t) == IF HasBurn THEN Max(0, Min(t, EffEnd) - burn.ts) ELSE 0
 Closed(col, t) ==
   LET o  == Ov(t)
-      tl == IF HasBurn THEN t - Min(t, burn.te) ELSE 0      \* coasting time after the burn
+      tl == IF HasBurn /\ o > 0 THEN t - Min(t, EffEnd) ELSE 0   \* coasting time after the burn
   IN <<col[1] + 2 * col[2] * t + G * t * t + A * (o * o + 2 * o * tl),
        col[2] + G * t + A * o>>
 
@@ -164,7 +178,7 @@ Flow(t0, tf, col, q) == Run(t0, tf, col, PruneQ(q, t0))
 Init == /\ pc = "poseLaw" /\ law = <<0, 0, 0>> /\ burn = NoBurn
         /\ dt = 0 /\ nsteps = 0 /\ hor = 0 /\ X0 = <<>> /\ now = 0 /\ X = <<>>
         /\ queue = 0 /\ thrust = 0 /\ call = NoCall /\ it = 0 /\ fresh = FALSE
-        /\ rem = <<>> /\ outs = <<>> /\ hist = <<>> /\ on = {}
+        /\ rem = <<>> /\ outs = <<>> /\ hist = <<>> /\ on = {} /\ dropAt = NeverDrop
 
 PoseLaw ==
   /\ pc = "poseLaw"
@@ -172,6 +186,7 @@ PoseLaw ==
        /\ law' = l /\ X0' = Batch(K, l[1]) /\ X' = Batch(K, l[1])
   /\ pc' = "poseGrid"
   /\ UNCHANGED <<burn, dt, nsteps, hor, now, queue, thrust, call, it, fresh, rem, outs, hist, on>>
+  /\ UNCHANGED dropAt
 
 PoseGrid ==
   /\ pc = "poseGrid"
@@ -183,6 +198,7 @@ PoseGrid ==
             /\ \E h \in 2..Horizon : hor' = h
   /\ pc' = "poseBurn"
   /\ UNCHANGED <<law, burn, X0, now, X, queue, thrust, call, it, fresh, rem, outs, hist, on>>
+  /\ UNCHANGED dropAt
 
 BurnIntervals ==
   {<<s, e>> \in (FirstStart..hor) \X (1..(hor + 1)) :
@@ -197,6 +213,7 @@ PoseBurn ==
      \/ WithNoBurn /\ burn' = NoBurn
   /\ pc' = IF Mode = "calls" THEN "append" ELSE "idle"
   /\ UNCHANGED <<law, dt, nsteps, hor, X0, now, X, queue, thrust, call, it, fresh, rem, outs, hist, on>>
+  /\ UNCHANGED dropAt
 
 (***************************************************************************)
 (* Agent side: queue                                                       *)
@@ -207,6 +224,7 @@ AppendEvent ==
   /\ queue' = IF HasBurn THEN 1 ELSE 0
   /\ pc' = "idle"
   /\ UNCHANGED <<law, burn, dt, nsteps, hor, X0, now, X, thrust, call, it, fresh, rem, outs, hist, on>>
+  /\ UNCHANGED dropAt
 
 \* "steps" mode: Scenario.stepForward handles the relevant events of (now, now + dt]:
 \* a burn is appended again at every step in which it is active
@@ -215,6 +233,16 @@ Deliver ==
   /\ queue' = IF Delivered(now, now + dt) THEN queue + 1 ELSE queue
   /\ pc' = "delivered"
   /\ UNCHANGED <<law, burn, dt, nsteps, hor, X0, now, X, thrust, call, it, fresh, rem, outs, hist, on>>
+  /\ UNCHANGED dropAt
+
+\* "calls" mode: from now on the caller passes scheduled_events = None / [] (a filter that propagates
+\* without the agent's queue, a user calling the dynamics object directly).  The dynamics object is
+\* the same one, with whatever finite_thrust the previous call left behind.
+DropEvents ==
+  /\ pc = "idle" /\ Mode = "calls" /\ CallerMayDrop
+  /\ queue > 0 /\ Len(hist) >= 1 /\ Len(hist) < MaxCalls /\ now < hor
+  /\ queue' = 0 /\ dropAt' = now
+  /\ UNCHANGED <<pc, law, burn, dt, nsteps, hor, X0, now, X, thrust, call, it, fresh, rem, outs, hist, on>>
 
 \* PropagateRegistration.generateSubmission -> Agent.prunePropagateEvents
 Prune ==
@@ -223,6 +251,7 @@ Prune ==
   /\ queue' = PruneQ(queue, now)
   /\ pc' = "pruned"
   /\ UNCHANGED <<law, burn, dt, nsteps, hor, X0, now, X, thrust, call, it, fresh, rem, outs, hist, on>>
+  /\ UNCHANGED dropAt
 
 (***************************************************************************)
 (* Celestial.propagate / propagateBulk                                      *)
@@ -235,11 +264,14 @@ BulkGrids == UNION {Grids(now, m) : m \in 1..(MaxInterior + 1)}
 
 Begin(kind, times) ==
   /\ call' = [kind |-> kind, times |-> times, X0 |-> X, q |-> queue]
-  /\ thrust' = Rearm(now, queue)            \* _prepEvents
+  \* _prepEvents: finite_thrust := None, then re-armed from the events of THIS call
+  \* (StaleThrust: the reset only happens when events are passed)
+  /\ thrust' = IF StaleThrust /\ queue = 0 THEN thrust ELSE Rearm(now, queue)
   /\ it' = now /\ fresh' = TRUE
   /\ rem' = times /\ outs' = <<>>
   /\ pc' = "integ"
   /\ UNCHANGED <<law, burn, dt, nsteps, hor, X0, now, X, queue, hist, on>>
+  /\ UNCHANGED dropAt
 
 \* Propagate(t0, t1)
 PrepEvents ==
@@ -268,6 +300,7 @@ Integrate ==
         /\ pc' = IF StartRoot(it, fresh, Tf, call.q) THEN "start"
                  ELSE IF EndRoot(it, Tf, call.q) THEN "end" ELSE "finish"
   /\ UNCHANGED <<law, burn, dt, nsteps, hor, X0, now, queue, thrust, call, fresh, hist>>
+  /\ UNCHANGED dropAt
 
 \* _applyEvents at the start root: finite_thrust := thrust function; restart an ulp later
 StartThrust ==
@@ -275,6 +308,7 @@ StartThrust ==
   /\ thrust' = A /\ fresh' = FALSE
   /\ pc' = IF it < Tf THEN "integ" ELSE "finish"
   /\ UNCHANGED <<law, burn, dt, nsteps, hor, X0, now, X, queue, call, it, rem, outs, hist, on>>
+  /\ UNCHANGED dropAt
 
 \* _applyEvents at the end root: getStateChangeCallback returns None
 EndThrust ==
@@ -282,6 +316,7 @@ EndThrust ==
   /\ thrust' = 0 /\ fresh' = FALSE
   /\ pc' = IF it < Tf THEN "integ" ELSE "finish"
   /\ UNCHANGED <<law, burn, dt, nsteps, hor, X0, now, X, queue, call, it, rem, outs, hist, on>>
+  /\ UNCHANGED dropAt
 
 \* return value; PropagateRegistration.processResults: time and state of the agent.
 \* propagateBulk drops the column of the initial time (final_states[..., 1:]).
@@ -289,12 +324,13 @@ Result == IF call.kind = "single" THEN <<X>> ELSE Tail(outs)
 Finish ==
   /\ pc = "finish"
   /\ now' = Tf
-  /\ hist' = Append(hist, [kind |-> call.kind, times |-> call.times, outs |-> Result])
+  /\ hist' = Append(hist, [kind |-> call.kind, times |-> call.times, outs |-> Result, q |-> call.q])
   /\ pc' = IF Tf = hor THEN "done" ELSE "idle"
   /\ call' = [call EXCEPT !.kind = "none"]
   /\ UNCHANGED <<law, burn, dt, nsteps, hor, X0, X, queue, thrust, it, fresh, rem, outs, on>>
+  /\ UNCHANGED dropAt
 
-Next == PoseLaw \/ PoseGrid \/ PoseBurn \/ AppendEvent \/ Deliver \/ Prune \/ PrepEvents
+Next == PoseLaw \/ PoseGrid \/ PoseBurn \/ AppendEvent \/ Deliver \/ DropEvents \/ Prune \/ PrepEvents
         \/ PrepEventsBulk \/ Integrate \/ StartThrust \/ EndThrust \/ Finish
 Spec == Init /\ [][Next]_vars
 
@@ -306,12 +342,12 @@ Cols == DOMAIN X
 
 \* C15: thrust on during tick tau  iff  ts <= tau < te   (for every completed tick)
 ThrustExactlyInterval ==
-  AtBoundary => \A tau \in 0..(now - 1) : (tau \in on) <=> (HasBurn /\ burn.ts <= tau /\ tau < burn.te)
+  AtBoundary => \A tau \in 0..(now - 1) : (tau \in on) <=> (HasBurn /\ burn.ts <= tau /\ tau < EffEnd)
 \* C15: delivered delta-v = a * thrust time; = a * (te - ts) once the burn is over
 DeliveredDv ==
   AtBoundary => \A k \in Cols :
      /\ X[k][2] - (X0[k][2] + G * now) = A * Cardinality(on)
-     /\ (HasBurn /\ now >= burn.te) => X[k][2] - (X0[k][2] + G * now) = A * (burn.te - burn.ts)
+     /\ (HasBurn /\ now >= EffEnd) => X[k][2] - (X0[k][2] + G * now) = A * Max(0, EffEnd - burn.ts)
 \* C03/C15: the state at a call boundary does not depend on how [0, now] was cut into calls
 ExactAtBoundaries ==
   AtBoundary => \A k \in Cols : X[k] = Closed(X0[k], now)
@@ -343,5 +379,5 @@ Emit ==
   (pc = "done" /\ EmitTag # "") =>
      PrintT(EmitTag \o " " \o ToJson(
        [mode |-> Mode, law |-> law, K |-> Len(X0), dt |-> dt, nsteps |-> nsteps, hor |-> hor,
-        burn |-> burn, X0 |-> X0, hist |-> hist, on |-> on]))
+        burn |-> burn, X0 |-> X0, hist |-> hist, on |-> on, dropAt |-> dropAt]))
 =============================================================================
